@@ -1,0 +1,13 @@
+//go:build verif
+
+// Contracts (machine-checked by /verif/engine, see /verif/DESIGN.md). Comment-only file.
+package uuid
+
+// Vanilla: UUID.nameUUIDFromBytes(("OfflinePlayer:" + name).getBytes(UTF_8)) = MD5 of those bytes with
+// byte 6 := (b & 0x0f) | 0x30 (version 3) and byte 8 := (b & 0x3f) | 0x80 (RFC 4122 variant); all other bytes unchanged.
+//@ func OfflinePlayerUUID
+//@   props C10
+//@   at-call md5.Sum as sum: assert streq(bytes(arg0), "OfflinePlayer:" ++ username)
+//@   ensures [version3] called(sum) && result[6] == (res(sum)[6] & 0x0f) | 0x30
+//@   ensures [variant] result[8] == (res(sum)[8] & 0x3f) | 0x80
+//@   ensures [other-bytes-md5] forall i int :: 0 <= i && i < 16 && i != 6 && i != 8 ==> result[i] == res(sum)[i]
